@@ -210,6 +210,9 @@ pub enum Op {
     AdapterPeerWrite(Id, u32),
     AdapterPeerRead(Id, u32),
     AdapterPeerClose(Id),
+    /// reuse one slot n times (insert a far-away timer, remove it) while checking that tokens
+    /// issued 1, 255, 256, 4095, 65535 reuses ago stay dead
+    SlotChurn(u32),
 }
 
 pub const INTEREST_NAMES: [&str; 4] = ["EMPTY", "READ", "WRITE", "BOTH"];
@@ -325,6 +328,7 @@ impl Op {
             Op::AdapterPeerWrite(..) => "AdapterPeerWrite",
             Op::AdapterPeerRead(..) => "AdapterPeerRead",
             Op::AdapterPeerClose(_) => "AdapterPeerClose",
+            Op::SlotChurn(_) => "SlotChurn",
         }
     }
 }
